@@ -39,6 +39,10 @@ every hit, and the check fails when source and table disagree):
                functions do with it: ``read`` / ``call`` (called) / ``arg`` (passed on) / ``raise`` / ``return`` / ``yield`` / ``mutate`` / ``attr``
                (an attribute or item of it is read).  A cell bound to a fresh INSTANCE that the inner function RAISES or RETURNS is an
                object created once and handed to every request (a pre-built exception): no proved kind admits that shape.
+  lock-use     a CONDITIONAL lock acquisition ``<expr>.acquire(blocking=False)`` / ``.acquire(timeout=t)`` (any ``.acquire`` call with an
+               argument) with what the code does with the result (``ignored`` / ``tested`` / ``bound:<name>`` [``,guards-release-only``] ...):
+               the kind ``lock-protected`` is proved for ``with lock:`` / a blocking acquire (models Sc, Ll.run); a timed acquire whose
+               result does not guard the critical section gives no mutual exclusion (Ll.timed_ignored_witness)
   shared-raise ``raise self.X`` in a method of a long-lived class, or ``raise name`` where ``name`` is a module-level object that is not a
                class: an exception object that exists before the request and is raised into it
 
@@ -729,11 +733,79 @@ def scan(root=None, per_request_classes=()):
                             record_target(a, None, line, qual, scope, cls, 'passed-to:' + n.func.id)
 
         visit(tree, [], None, None)
+        for qual, shape, line in lock_uses(tree):
+            item(rel, qual, 'lock-use', shape, line)
 
         # class-level mutable literals (reported only when mutated in place through self./cls., see record_target: they
         # surface as inst-attr / class-attr items of the class)
 
     return items
+
+
+def lock_uses(tree):
+    """CONDITIONAL lock acquisitions: every call ``<expr>.acquire(...)`` that passes an argument (``blocking=False`` / ``timeout=t`` /
+    positionally) - it may return without the lock, so what the code does with the result is part of the locking protocol.  Yields
+    (qualname ``<function>.<acquire:receiver>``, shape ``acquire(<arguments>):result-<use>``, line) with <use> one of
+    ``ignored`` (expression statement), ``tested`` (directly the test of an if / while / assert / conditional expression, possibly under
+    ``not``), ``bound:<name>`` (assigned; shape continues with ``,guards-release-only`` when that name is only ever tested in a
+    ``finally`` clause - the body ran whether or not the lock was obtained), ``returned``, ``other``.  ``with lock:`` and a bare blocking ``.acquire()``
+    wait for the holder and are not reported."""
+    parents = {}
+    for n in ast.walk(tree):
+        for c in ast.iter_child_nodes(n):
+            parents[id(c)] = n
+
+    def qual_of(n):
+        out = []
+        while id(n) in parents:
+            n = parents[id(n)]
+            if isinstance(n, (ast.FunctionDef, ast.AsyncFunctionDef, ast.ClassDef)):
+                out.append(n.name)
+        return list(reversed(out))
+
+    def enclosing_fn(n):
+        while id(n) in parents:
+            n = parents[id(n)]
+            if isinstance(n, (ast.FunctionDef, ast.AsyncFunctionDef)):
+                return n
+        return tree
+
+    for n in ast.walk(tree):
+        if not (isinstance(n, ast.Call) and isinstance(n.func, ast.Attribute) and n.func.attr == 'acquire' and (n.args or n.keywords)):
+            continue
+        args = ','.join([_unparse(a) for a in n.args] + [f'{k.arg}={_unparse(k.value)}' for k in n.keywords])
+        par = parents.get(id(n))
+        while isinstance(par, ast.UnaryOp) and isinstance(par.op, ast.Not):
+            par = parents.get(id(par))
+        if isinstance(par, ast.Expr):
+            use = 'ignored'
+        elif isinstance(par, (ast.If, ast.While, ast.Assert, ast.IfExp)) or isinstance(par, ast.BoolOp):
+            use = 'tested'
+        elif isinstance(par, ast.Return):
+            use = 'returned'
+        elif isinstance(par, (ast.Assign, ast.AnnAssign, ast.NamedExpr)):
+            tgt = par.targets[0] if isinstance(par, ast.Assign) else par.target
+            name = dotted(tgt) or 'expr'
+            use = 'bound:' + name
+            fn = enclosing_fn(n)
+            loads = [m for m in ast.walk(fn) if isinstance(m, (ast.Name, ast.Attribute)) and dotted(m) == name
+                     and isinstance(getattr(m, 'ctx', None), ast.Load)]
+
+            def in_finally(m):
+                c = m
+                while id(c) in parents and parents[id(c)] is not fn:
+                    p = parents[id(c)]
+                    if isinstance(p, ast.Try) and any(c is x for x in p.finalbody):
+                        return True
+                    c = p
+                return False
+            if loads and all(in_finally(m) for m in loads):
+                use += ',guards-release-only'
+            elif not loads:
+                use += ',never-read'
+        else:
+            use = 'other'
+        yield '.'.join(qual_of(n) + ['<acquire:%s>' % (dotted(n.func.value) or 'expr')]), f'acquire({args}):result-{use}', n.lineno
 
 
 def _local_defs(scope):
